@@ -20,9 +20,9 @@ Definition lower_ok (k : res_case) : bool :=
                       rnames_in g (r_gets r) && rnames_in s (r_sets r) && rnames_in d (r_dels r)
                     end) (rc_env k).
 
-(* nothing is reported that is not derivable by finitely many substitutions (path length <= 2*calls+2) *)
+(* nothing is reported that is not derivable by finitely many substitutions (path length <= calls+2) *)
 Definition upper_ok (k : res_case) : bool :=
-  let U := upper (excl k) (rc_env k) (rc_store0 k) (2 * total_calls (rc_env k) + 2) in
+  let U := upper (excl k) (rc_env k) (rc_store0 k) (total_calls (rc_env k) + 2) in
   forallb (fun f => match find_result (rc_results k) (fe_id f) with
                     | None => false
                     | Some r =>
